@@ -85,13 +85,14 @@ CONFIGS = {
                          I("prio", 1, 2), I("prio", 2, 2), I("tadd", 1, -5)],
                roles=[["hold", "acq", "pacq", "tadd"], ["hold", "pacq", "prel"], ["hold", "pacq", "ppre", "pre", "intr", "stop", "prio"]]),
   "x3buf": dict(np=3, prio=[0, 0, 1], auto=[1, 1, 1], nres=1, poolcap=1, bufcap=2, maxlen=3, maxtime=4,
-               alphabet=[I("hold", 1), I("acq", 1), I("pre", 1), I("bput", 1), I("bput", 3), I("bget", 1), I("bget", 3), I("intr", 1, 9, 0), I("stop", 1, 5),
-                         I("prio", 2, 2), I("tadd", 1, -5)],
-               roles=[["hold", "acq", "bput", "bget", "tadd"], ["hold", "bput", "bget"], ["hold", "bput", "bget", "pre", "intr", "stop", "prio"]]),
-  "x3q": dict(np=3, prio=[0, 0, 1], auto=[1, 1, 1], nres=1, poolcap=1, oqcap=1, pqcap=1, maxlen=3, maxtime=4,
-               alphabet=[I("hold", 1), I("acq", 1), I("pre", 1), I("qput", 5), I("qget"), I("pqput", 1, 1), I("pqget"), I("intr", 1, 9, 0), I("stop", 1, 5),
-                         I("prio", 2, 2), I("tadd", 1, -5)],
-               roles=[["hold", "acq", "qput", "qget", "pqput", "pqget", "tadd"], ["hold", "qput", "qget", "pqput", "pqget"], ["hold", "qget", "pqget", "pre", "intr", "stop", "prio"]]),
+               alphabet=[I("hold", 1), I("acq", 1), I("pre", 1), I("bput", 1), I("bput", 3), I("bget", 1), I("bget", 3), I("intr", 1, 9, 0), I("stop", 1, 5)],
+               roles=[["hold", "acq", "bput", "bget"], ["hold", "bput", "bget"], ["hold", "pre", "intr", "stop"]]),
+  "x3oq": dict(np=3, prio=[0, 0, 1], auto=[1, 1, 1], nres=1, poolcap=1, oqcap=1, pqcap=1, maxlen=3, maxtime=4,
+               alphabet=[I("hold", 1), I("acq", 1), I("pre", 1), I("qput", 5), I("qget"), I("intr", 1, 9, 0), I("stop", 1, 5), I("prio", 2, 2)],
+               roles=[["hold", "acq", "qput", "qget"], ["hold", "qput", "qget"], ["hold", "qget", "pre", "intr", "stop", "prio"]]),
+  "x3pq": dict(np=3, prio=[0, 0, 1], auto=[1, 1, 1], nres=1, poolcap=1, oqcap=1, pqcap=1, maxlen=3, maxtime=4,
+               alphabet=[I("hold", 1), I("acq", 1), I("pre", 1), I("pqput", 1, 1), I("pqget"), I("pqcancel", 1), I("intr", 1, 9, 0), I("stop", 1, 5), I("prio", 2, 2)],
+               roles=[["hold", "acq", "pqput", "pqget"], ["hold", "pqput", "pqget"], ["hold", "pqget", "pqcancel", "pre", "intr", "stop", "prio"]]),
   "x3res": dict(np=3, prio=[0, 0, 1], auto=[1, 1, 1], nres=1, poolcap=1, maxlen=3, maxtime=4,
                alphabet=[I("hold", 1), I("acq", 1), I("rel", 1), I("pre", 1), I("intr", 1, 9, 0), I("intr", 2, 9, 0), I("stop", 1, 5), I("stop", 2, 5),
                          I("prio", 1, 2), I("prio", 2, 2), I("tadd", 1, -5), I("wproc", 1)],
@@ -132,16 +133,16 @@ SIMULATE = {"big3": (6000, 150), "big4": (6000, 150)}
 
 FOR_PROPERTY = {
   "C01": (["wev2"], ["wev2s"]),
-  "C04": (["wait2", "wev2"], ["wait2r", "wev2s", "lost2", "end2"]),
-  "C11": (["buf2"], ["buf3"]),
-  "C12": (["queue2"], ["queue3"]),
-  "C13": (["cond2", "cond3s", "cond2u"], ["cond3"]),
+  "C04": (["wait2", "wev2"], ["wait2r", "wev2s", "lost2", "end2", "x3res", "x3cond"]),
+  "C11": (["buf2", "x3buf"], ["buf3"]),
+  "C12": (["queue2", "x3oq"], ["queue3", "x3pq"]),
+  "C13": (["cond2", "cond3s", "cond2u"], ["cond3", "x3cond"]),
   "C14": (["rec2q", "rec2pq", "rec2w", "rec2v"], ["rec2", "rec2p", "rec2b"]),
-  "C05": (["mutex2"], ["mutex2p", "mutex3", "lost2"]),
-  "C06": (["order3", "cond4o"], ["order3e", "pool3"]),
-  "C07": (["pool2", "pool3p"], ["pool3"]),
-  "C08": (["lost2", "lost3x"], ["lost3", "pool2", "mutex2p"]),
-  "C09": (["end2"], ["end3", "restart2", "wait2r"]),
+  "C05": (["mutex2", "x3res"], ["mutex2p", "mutex3", "lost2"]),
+  "C06": (["order3", "cond4o"], ["order3e", "pool3", "x3res"]),
+  "C07": (["pool2", "pool3p"], ["pool3", "x3pool"]),
+  "C08": (["lost2", "lost3x"], ["lost3", "pool2", "mutex2p", "x3pool", "x3buf", "x3oq", "x3pq", "x3res"]),
+  "C09": (["end2", "x3res"], ["end3", "restart2", "wait2r", "x3pool"]),
 }
 
 
